@@ -2893,7 +2893,7 @@ class PoissonGAM(GAM):
         y : y normalized by exposure
         weights : array-like shape (n_samples,)
         """
-        y = y.ravel()
+        y = np.ravel(y)
 
         if exposure is not None:
             exposure = np.array(exposure).astype('f').ravel()
